@@ -22,6 +22,8 @@ run() { # label props...
 }
 for d in seeded/*/; do
   n=$(basename $d); P=$(echo $n | cut -d- -f1)
+  [ -f $d/patch.diff ] || continue
+  [ -z "$SWEEP_ONLY" ] || echo "$P" | grep -Eq "$SWEEP_ONLY" || continue
   git -C $R checkout -q -- . ; git -C $R apply "$(pwd)/$d/patch.diff" || { echo "$n: patch does not apply"; continue; }
   run "seeded:$n" $P
   git -C $R checkout -q -- .
